@@ -57,20 +57,22 @@ impl BinaryFlavor for VFlavor {
 #[derive(Clone, Debug, PartialEq)]
 pub struct Cfg {
     pub strat: FailedResolveStrategy,
-    pub lines: bool,
+    /// resolver kind: 0 = HashMap; text lines (BasicTokenResolver::from_text_lines): 1 = `\n`, 2 = `\r\n`,
+    /// 3 = trailing blanks / tabs and no final newline, 4 = mixed endings, ids without the `0x` prefix, upper-case hex
+    pub lines: u8,
     pub entries: Vec<(u16, String)>,
 }
 
 pub fn show_cfg(c: &Cfg) -> String {
     let s = match c.strat { FailedResolveStrategy::Error => "E", FailedResolveStrategy::Stringify => "S", FailedResolveStrategy::Ignore => "I" };
     let e = if c.entries.is_empty() { "-".to_string() } else { c.entries.iter().map(|(i, n)| format!("{}:{}", i, hex(n.as_bytes()))).collect::<Vec<_>>().join(",") };
-    format!("{}/{}/{}", s, if c.lines { "L" } else { "H" }, e)
+    format!("{}/{}/{}", s, ["H", "L", "R", "T", "M"][c.lines as usize % 5], e)
 }
 
 pub fn parse_cfg(s: &str) -> Option<Cfg> {
     let mut it = s.splitn(3, '/');
     let strat = match it.next()? { "E" => FailedResolveStrategy::Error, "S" => FailedResolveStrategy::Stringify, "I" => FailedResolveStrategy::Ignore, _ => return None };
-    let lines = match it.next()? { "L" => true, "H" => false, _ => return None };
+    let lines = match it.next()? { "H" => 0, "L" => 1, "R" => 2, "T" => 3, "M" => 4, _ => return None };
     let e = it.next()?;
     let mut entries = vec![];
     if e != "-" {
@@ -83,9 +85,18 @@ pub fn parse_cfg(s: &str) -> Option<Cfg> {
 }
 
 pub fn make_resolver(c: &Cfg) -> Box<dyn TokenResolver> {
-    if c.lines {
+    if c.lines != 0 {
+        // (an EMPTY line is refused by from_text_lines: "expected to split line"; not generated)
         let mut txt = String::new();
-        for (i, n) in &c.entries { txt.push_str(&format!("0x{:x} {}\n", i, n)); }
+        let last = c.entries.len().saturating_sub(1);
+        for (k, (i, n)) in c.entries.iter().enumerate() {
+            match c.lines {
+                1 => txt.push_str(&format!("0x{:x} {}\n", i, n)),
+                2 => txt.push_str(&format!("0x{:x} {}\r\n", i, n)),
+                3 => { txt.push_str(&format!("0x{:x} {}{}", i, n, ["  ", "\t", " \t ", ""][k % 4])); if k != last { txt.push('\n'); } }
+                _ => txt.push_str(&match k % 4 { 0 => format!("{:x} {}\r\n", i, n), 1 => format!("0x{:X} {} \n", i, n), 2 => format!("0x{:04x} {}\t\r\n", i, n), _ => format!("{:04X} {}\n", i, n) }),
+            }
+        }
         Box::new(BasicTokenResolver::from_text_lines(txt.as_bytes()).expect("token text lines"))
     } else {
         let mut m: HashMap<u16, String> = HashMap::new();
@@ -788,6 +799,15 @@ mod real {
     pub struct Inner { pub x: i32, pub y: Option<u32> }
     #[derive(Deserialize, Debug)]
     pub struct PlainS { pub a: i64, pub name: String, pub flags: Vec<String>, pub unit: Option<Inner>, pub core: Option<bool> }
+    /// tuple, tuple-struct and newtype fields, each followed by further fields
+    #[derive(Deserialize, Debug)]
+    pub struct P(pub i32, pub i32);
+    #[derive(Deserialize, Debug)]
+    pub struct N(pub i64);
+    #[derive(Deserialize, Debug)]
+    pub struct TupS { pub a: (i32, i32), pub name: String, pub b: P, pub id: u32, pub core: N, pub x: i32, pub unit: Option<TupInner>, pub y: Option<i32> }
+    #[derive(Deserialize, Debug)]
+    pub struct TupInner { pub a: P, pub b: i32, pub list: (i32, i32, i32), pub x: i32 }
     #[derive(JominiDeserialize, Debug)]
     pub struct TokS {
         #[jomini(token = 0x2000)] pub a: i64,
@@ -879,7 +899,7 @@ pub fn exec(w: &[&str], obs: &mut Obs) -> Option<String> {
                     }
                 }
             };
-            for lines in [false, true] {
+            for lines in 0..5u8 {
                 let c2 = Cfg { lines, ..c.clone() };
                 check("tape", run_tape(&c2, &ty, &data), obs);
                 check("ondemand", run_slice(&c2, &ty, &data), obs);
@@ -897,6 +917,13 @@ pub fn exec(w: &[&str], obs: &mut Obs) -> Option<String> {
         ["bde_tapeof", bd] => {
             let d = parse_bdoc(bd)?;
             Some(match BinaryTape::from_slice(&render_bdoc(&d)) { Ok(t) => show::bin_tape(t.tokens()), Err(_) => "err:parse".to_string() })
+        }
+        ["x-c04-tup", cfg, h] => {
+            let (c, data) = (parse_cfg(cfg)?, unhex(h)?);
+            let v = real_all_paths::<real::TupS>(&c, &data, |t| format!("{:?}", t).replace(' ', ""));
+            if v[0] != v[1] || v[1] != v[2] { obs.violation("c04-tuple-fields-paths-disagree", &case(), &format!("tape {} on-demand {} stream {}", v[0], v[1], v[2])); }
+            obs.count(if v[1].starts_with("err") { "tup:err" } else { "tup:ok" });
+            Some(v[1].clone())
         }
         ["x-c04-real", cfg, h] => {
             let (c, data) = (parse_cfg(cfg)?, unhex(h)?);
@@ -937,7 +964,7 @@ fn resolver_variants(rng: &mut Rng) -> Vec<(u16, String)> {
 
 fn gen_cfg(rng: &mut Rng) -> Cfg {
     let strat = *rng.pick(&[FailedResolveStrategy::Error, FailedResolveStrategy::Stringify, FailedResolveStrategy::Ignore]);
-    Cfg { strat, lines: rng.chance(1, 2), entries: resolver_variants(rng) }
+    Cfg { strat, lines: rng.below(5) as u8, entries: resolver_variants(rng) }
 }
 
 pub fn gen_bdoc(g: &mut Gen) -> BDoc {
@@ -1087,7 +1114,7 @@ fn mutate_tokens(rng: &mut Rng, d: &BDoc) -> Vec<u8> {
 
 pub fn gen(g: &mut Gen) {
     // fixed corners first
-    let c_all = Cfg { strat: FailedResolveStrategy::Error, lines: false, entries: resolver_variants(&mut Rng(3)).into_iter().chain(docgen::KEY_POOL.iter().map(|k| (docgen::key_id(k.as_bytes()).unwrap(), k.to_string()))).collect() };
+    let c_all = Cfg { strat: FailedResolveStrategy::Error, lines: 0, entries: resolver_variants(&mut Rng(3)).into_iter().chain(docgen::KEY_POOL.iter().map(|k| (docgen::key_id(k.as_bytes()).unwrap(), k.to_string()))).collect() };
     for (ty, bd) in [
         ("st(a:i64)", "Id:8192=I32:5"),
         ("st(a:i64;b:opt(str))", "Id:8192=I64:-9;~~Q:62=U:6869"),
@@ -1116,7 +1143,7 @@ pub fn gen(g: &mut Gen) {
     // every odd id as a key and as a value, all strategies, resolver knowing none / the pool
     for id in ODD_IDS {
         for strat in [FailedResolveStrategy::Error, FailedResolveStrategy::Stringify, FailedResolveStrategy::Ignore] {
-            let c = Cfg { strat, lines: id % 2 == 0, entries: if id % 3 == 0 { vec![] } else { c_all.entries.clone() } };
+            let c = Cfg { strat, lines: (id % 5) as u8, entries: if id % 3 == 0 { vec![] } else { c_all.entries.clone() } };
             let bd = BDoc { fields: vec![
                 BField { ghosts: 0, key: BLeaf::Id(id), val: BNode::Leaf(BLeaf::Id(id)) },
                 BField { ghosts: 0, key: BLeaf::Id(0x2000), val: BNode::Arr(vec![BNode::Leaf(BLeaf::Id(id)), BNode::Leaf(BLeaf::I32(1))]) } ] };
@@ -1162,6 +1189,14 @@ pub fn gen(g: &mut Gen) {
         g.emit(format!("x-c04-real {} {}", show_cfg(&c), hex(&render_bdoc(&bd))));
     }
     g.count("real-struct-docs");
+    let mt = g.budget(400, 8000);
+    for i in 0..mt {
+        let mut bd = gen_tup_doc(&mut g.rng);
+        if i > 0 { if let Some(f) = bd.fields.first_mut() { f.ghosts = 0; } }
+        let c = gen_cfg(&mut g.rng);
+        g.emit(format!("x-c04-tup {} {}", show_cfg(&c), hex(&render_bdoc(&bd))));
+    }
+    g.count("tuple-struct-docs");
 
     // narrow integer targets x every value token kind
     let n4 = g.budget(800, 15_000);
@@ -1227,6 +1262,26 @@ fn gen_narrow_case(rng: &mut Rng) -> (BDoc, Ty) {
         fs.push(BField { ghosts: 0, key, val: BNode::Leaf(leaf) });
     }
     (BDoc { fields: fs }, Ty::Struct(decl))
+}
+
+fn gen_tup_doc(rng: &mut Rng) -> BDoc {
+    fn key(rng: &mut Rng, n: &str) -> BLeaf { if rng.chance(2, 3) { BLeaf::Id(docgen::key_id(n.as_bytes()).unwrap()) } else { BLeaf::Unquoted(n.as_bytes().to_vec()) } }
+    fn int(rng: &mut Rng) -> BNode { let sh = rng.below(31); BNode::Leaf(BLeaf::I32(rng.next() as i32 >> sh)) }
+    fn ints(rng: &mut Rng, n: usize) -> BNode { BNode::Arr((0..n).map(|_| int(rng)).collect()) }
+    let mut vals: Vec<(&str, BNode)> = vec![("a", ints(rng, 2)), ("name", BNode::Leaf(BLeaf::Quoted(b"nm".to_vec()))), ("b", ints(rng, 2))];
+    let sh = rng.below(32);
+    vals.push(("id", BNode::Leaf(BLeaf::U32(rng.next() as u32 >> sh))));
+    vals.push(("core", if rng.chance(1, 2) { int(rng) } else { BNode::Leaf(BLeaf::I64(rng.next() as i64 >> 20)) }));
+    vals.push(("x", int(rng)));
+    if rng.chance(1, 2) {
+        let mut inner: Vec<(&str, BNode)> = vec![("a", ints(rng, 2)), ("b", int(rng)), ("list", ints(rng, 3)), ("x", int(rng))];
+        for i in (1..inner.len()).rev() { let j = rng.below(i + 1); inner.swap(i, j); }
+        let fs = inner.into_iter().map(|(n, v)| { let k = key(rng, n); BField { ghosts: 0, key: k, val: v } }).collect();
+        vals.push(("unit", BNode::Obj(fs)));
+    }
+    if rng.chance(1, 2) { vals.push(("y", int(rng))); }
+    for i in (1..vals.len()).rev() { let j = rng.below(i + 1); vals.swap(i, j); }
+    BDoc { fields: vals.into_iter().map(|(n, v)| { let k = key(rng, n); BField { ghosts: if rng.chance(1, 15) { 1 } else { 0 }, key: k, val: v } }).collect() }
 }
 
 fn gen_real_doc(rng: &mut Rng) -> BDoc {
